@@ -184,6 +184,8 @@ Section Pieces.
       (cbnow, cbnow && nz h, inv', adec', (c4 ++ c5 ++ c6 ++ c6r ++ c6q ++ c7 ++ c7r ++ c7q)%list).
   Definition u_judged := map u_judge u_rows.
   Definition u_facc : list (nat * nat) := concat (map (fun j => let '(_, _, _, _, f) := j in f) u_judged).
+  (* clause 10.8: no Wait / Resolve / ResolveWithReleased call returned a context error other than context.Canceled (status 7) *)
+  Definition u_f10_8 := fails 10 8 (forallb (fun x => let '(code, _, _, _, _, _) := x in negb (N.eqb code 7)) (po_cons p)).
   Definition u_all : list (nat * nat) :=
     (u_f8_1 ++ u_f8_2 ++ u_f8_3 ++ u_f8_4 ++ u_f9_1 ++ u_f9_2 ++ u_f9_3 ++ u_f9_4 ++ u_f9_5 ++ u_f10_1 ++ u_f10_2 ++ u_f10_3)%list.
   Definition u_mst : mst :=
@@ -195,6 +197,6 @@ Section Pieces.
        m_ainv := map (fun j => let '(_, _, a, _, _) := j in a) u_judged;
        m_adec := map (fun j => let '(_, _, _, a, _) := j in a) u_judged; m_rootc := u_rootc; m_empty := u_empty; m_emptyok := u_emptyok |}.
 
-  Lemma mon1_eq : mon1 m e p = (u_mst, ((if m_const m then [] else u_all) ++ u_facc)%list).
+  Lemma mon1_eq : mon1 m e p = (u_mst, ((if m_const m then [] else u_all) ++ u_facc ++ u_f10_8)%list).
   Proof. reflexivity. Qed.
 End Pieces.
